@@ -798,6 +798,9 @@ func (c *Contract) modHeapsApprox(p *Program, f interface{}) map[string]string {
 		}
 	}
 	for _, g := range c.Havocs {
+		if g == "clock" {
+			out["GH.clock"] = STime
+		}
 		if gv := p.Ghosts[g]; gv != nil {
 			out["GH.u."+g] = gv.Sort
 		}
